@@ -10,7 +10,7 @@ def parseWho (s : String) : Option Who :=
   if s == "W" then some .w else (s.toNat?).map Who.s
 
 def parseSev (s : String) : Option Sev :=
-  if s == "0" then some .none else if s == "S" then some .signal else if s == "T" then some .thread else none
+  if s == "0" then some .none else if s == "S" || s == "B" then some .signal else if s == "T" then some .thread else none
 
 def parseMode (s : String) : Option Mode :=
   if s == "W" then some .wait else if s == "N" then some .nowait else none
@@ -37,6 +37,7 @@ def parseEv (ws : List String) : Option Ev :=
   | ["notify", x, b, snap] => do some (.notify (← parseWho x) (← b.toNat?) snap.toList)
   | ["kill", x, t, sl] => do some (.kill (← parseWho x) (← t.toNat?) (← sl.toNat?))
   | ["sigrecv", i, b, _, snap] => do some (.sigrecv (← i.toNat?) (← b.toNat?) snap.toList)
+  | ["mask", x, b, same, _] => do some (.mask (← parseWho x) (← b.toNat?) (← same.toNat?))
   | ["free", "W"] => some .free
   | ["cwait", "W"] => some .cwait
   | ["cwret", "W"] => some .cwret
@@ -100,6 +101,7 @@ def addLine (a : TAcc) (line : String) : TAcc :=
   | "timeout" :: _ => { a with bad := some (a.n, "TIMEOUT: the scenario did not complete (lost wake-up / deadlock / lost request)") }
   | "overflow" :: _ => { a with bad := some (a.n, "event log overflow (runaway loop)") }
   | "unfilled" :: _ => { a with bad := some (a.n, "event slot never filled") }
+  | "note" :: _ :: "4" :: rest => { a with bad := some (a.n, "a notification signal that the submitter keeps blocked (to collect it with sigtimedwait) was delivered asynchronously: " ++ " ".intercalate rest) }
   | "note" :: rest => { a with bad := some (a.n, "a notification was delivered that is not the one requested at submission (the sigevent was read after getaddrinfo_a returned, or an unknown cookie/signal): " ++ " ".intercalate rest) }
   | "bad-op" :: _ => { a with bad := some (a.n, "bad-op") }
   | ["lock", "W", "I"] => { a with bad := some (a.n, "INT a resolver thread locks a second queue mutex (two contexts exist; a data race on the static is ThreadSanitizer's to report)") }
